@@ -111,6 +111,12 @@ def _state_stores(cf, f, memo_names=()):
   return out
 
 
+def _array_valued(e):
+  """Heuristic used only to choose between 'ignore' and 'undecided': array constructors / conversions of the argument."""
+  t = norm(e)
+  return any(k in t for k in ('array(', 'asarray(', 'Series(', 'astype(', 'to_numpy(', 'tolist('))
+
+
 def _only_none_reaches(ctx, dnode, store, name, val):
   """Every feasible path entry -> store on which the last definition of `name` is at `dnode` asserts that the value is
   None (`name is None`, `not name is not None`, the same on the setter's parameter)."""
@@ -386,6 +392,25 @@ def r5_inputs_copied(repo, rep, class_q):
           n += 1
           t = norm(e)
           copies = (re.fullmatch(r'(np|numpy)\.array\(%s(, dtype=[\w.]+)?\)' % val, t) is not None) or t.endswith('.copy()') or t.startswith('copy.')
+          # recognised sharing forms: the parameter itself, or a view of it
+          def is_view(x_):
+            if isinstance(x_, ast.Name):
+              return x_.id == val
+            if isinstance(x_, ast.Call) and norm(x_.func) in ('np.asarray', 'numpy.asarray', 'np.asanyarray', 'np.ravel', 'np.atleast_1d', 'np.squeeze') and x_.args:
+              return is_view(x_.args[0])
+            if isinstance(x_, ast.Call) and isinstance(x_.func, ast.Attribute) and x_.func.attr in ('reshape', 'ravel', 'view', 'squeeze', 'transpose') :
+              return is_view(x_.func.value)
+            if isinstance(x_, ast.Attribute) and x_.attr in ('T', 'values', 'real'):
+              return is_view(x_.value)
+            if isinstance(x_, ast.Subscript) and isinstance(x_.slice, ast.Slice):
+              return is_view(x_.value)
+            if isinstance(x_, ast.Call) and norm(x_.func) in ('np.array', 'numpy.array') and x_.args and any(k.arg == 'copy' and au.is_const(k.value, False) for k in x_.keywords):
+              return is_view(x_.args[0])
+            return False
+          if not copies and not is_view(e):
+            rep.undecided('R5/inputs-copied', '%s setter: self.%s = %s' % (name, fld, t[:50]), 'the stored value is computed from the argument in a form that is neither a recognised copy nor a recognised view of it', f.loc(node.ast)) \
+                if isinstance(e, (ast.Call, ast.Name)) and not isinstance(e, ast.BinOp) and _array_valued(e) else None
+            continue
           rep.check(copies, 'R5/inputs-copied', '%s setter stores a private copy in %s' % (name, fld), f.qualname, 'self.%s = %s' % (fld, t[:80]),
                     'the %s setter stores `%s`: the object keeps the caller\'s array (no copy), so a later in-place change by the caller alters lazily computed results while eagerly computed ones (means) stay'
                     % (name, t[:60]), f.loc(node.ast))
